@@ -500,13 +500,32 @@ Proof.
   - rewrite existsb_app. simpl. apply orb_true_r.
 Qed.
 
-(* what the pending changes of a refused COMMIT mean for the NEXT request in the same process (not for a restart): its
-   COMMIT makes them durable together with its own - an operation answered with a failure is applied after all *)
-Lemma refused_commit_pending_applied_by_next : forall ws ws2 s,
-  recover (map Write ws ++ [CommitFail; Ack] ++ map Write ws2 ++ [Commit; Ack]) s = apply_writes (ws ++ ws2) s.
+(* FIXED FINDING (regression witness): with the old run of a refused COMMIT the next request's COMMIT made the refused
+   operation's changes durable together with its own - an operation answered with a failure was applied after all *)
+Lemma old_refused_commit_applied_by_next : forall ws ws2 s,
+  recover (old_failed_commit_trace ws ++ map Write ws2 ++ [Commit; Ack]) s = apply_writes (ws ++ ws2) s.
 Proof.
-  intros. unfold recover. rewrite run_app, run_writes. simpl app.
+  intros. unfold recover, old_failed_commit_trace. rewrite <- app_assoc, run_app, run_writes. simpl app.
   change (run (CommitFail :: Ack :: map Write ws2 ++ [Commit; Ack]) {| dur := s; pend := ws |})
     with (run (map Write ws2 ++ [Commit; Ack]) {| dur := s; pend := ws |}).
   rewrite run_app, run_writes. reflexivity.
+Qed.
+
+(* as the code is now: after a refused COMMIT the machine is back where it started - durable state unchanged, nothing
+   pending - so NO later request, whatever it does, applies anything of the refused item *)
+Lemma run_failed_commit : forall o s,
+  run (trace_of_failed_commit o s) (mkMach s []) =
+  mkMach (if failed_commit_acks_success o s then post o s else s) [].
+Proof.
+  intros o s. unfold trace_of_failed_commit, failed_commit_acks_success, post.
+  destruct (writes_of o s) as [[|w ws]|]; try reflexivity.
+  rewrite run_app, run_writes. reflexivity.
+Qed.
+
+Lemma refused_commit_never_applied_later : forall o s w ws tr,
+  writes_of o s = Some (w :: ws) ->
+  recover (trace_of_failed_commit o s ++ tr) s = recover tr s.
+Proof.
+  intros o s w ws tr W. unfold recover. rewrite run_app, run_failed_commit.
+  unfold failed_commit_acks_success. rewrite W. reflexivity.
 Qed.
